@@ -213,6 +213,13 @@ def run(ctx):
     ok = ok and bool(rejects) and all(eng.prog.exc_is_sub(p.value.exc, "TypeError") for p in rejects)
     ctx.ob("R4", "key-gate", fn_site(eng, ck).loc(), "checkformat_key %s" % ("accepts exactly instances of the two Ed25519 key classes" if ok else "is not the isinstance gate over both Ed25519 key classes"), ok)
 
+    # "the hex under which it files signatures and the signatures it produces" are those of the key
+    # it was given: the signer derives the public key from the private key and signs with that
+    # private key (C09-R2, re-evaluated here)
+    from .c09 import sign_signable_rules
+
+    sign_signable_rules(ctx.sub("DEP-C09"), "R2")
+
 
 def _const_int(t):
     """value of an integer expression built from constants (32 + 1), else None"""
